@@ -230,7 +230,7 @@ func execConcRun(in runIn, ev func(k string, f any)) []core.Violation {
 	for c := range clients {
 		cl := sumdb.NewClient(&concOps{rs: rs, s: store, c: c, srv: srv, keyOf: keyOf})
 		cl.SetTileHeight(height)
-		cl.SetGONOSUMDB("private.example,*.corp.example")
+		cl.SetGONOSUMDB(malformedPattern + ",private.example,*.corp.example")
 		clients[c] = cl
 	}
 	ngo := 8 + rng.Intn(57)
